@@ -416,6 +416,12 @@ func (h *H) Wait() bool {
 // next parse sees (no effect natively, where a real token is parsed).
 func (h *H) StubJWT(aud, iss, alg int, sigOK, fresh bool) {}
 
+// StubAssertion tells the gosx model of jwt.ParseWithClaims that the next
+// tokens parsed are a client assertion with subject client-<sub>, issuer
+// client-<iss> (0: no iss claim), signed RS256 by client <signer>'s private
+// key, unexpired iff fresh (no effect natively, where a real token is parsed).
+func (h *H) StubAssertion(sub, iss, signer int, fresh bool) {}
+
 // ---- crash points
 //
 // A crash harness has the shape
